@@ -386,7 +386,7 @@ func (h *Harness) viewOf(dir string) *diskView {
 func (h *Harness) libExpect(v *diskView) string {
 	var sh uint32
 	if v.snap != h.ref.gen {
-		b := h.ref.blocks[v.snap]
+		b := h.ref.blk(v.snap)
 		if b == nil {
 			return "unknown"
 		}
@@ -394,7 +394,7 @@ func (h *Harness) libExpect(v *diskView) string {
 	}
 	attached := func(x string) bool {
 		for x != h.ref.gen {
-			b := h.ref.blocks[x]
+			b := h.ref.blk(x)
 			if b == nil || !v.idx[x] {
 				return false
 			}
@@ -405,7 +405,7 @@ func (h *Harness) libExpect(v *diskView) string {
 	var maxH uint32
 	var tops []string
 	for x := range v.idx {
-		b := h.ref.blocks[x]
+		b := h.ref.blk(x)
 		if b == nil || !attached(x) {
 			continue
 		}
@@ -463,8 +463,9 @@ func parseSnapFile(fn string) *snapFile {
 }
 
 // snapFileTie: every snapshot file of every capture of the workload is a state the node held (see the head of this file)
-func (h *Harness) snapFileTie(w Workload, wr *WlRun) {
+func (h *Harness) snapFileTie(p *pending) {
 	r := h.r
+	w, wr := p.w, p.wr
 	seen := map[uint64]bool{}
 	for _, ht := range wr.Hits {
 		if ht.NoCopy {
@@ -521,50 +522,73 @@ func (h *Harness) snapFileTie(w Workload, wr *WlRun) {
 				r.TieOK()
 				continue
 			}
-			r.TieFail("snapshot-file:"+w.Shape, fmt.Sprintf("workload %s, directory captured at %s#%d (point %d): %s (header: block %s height %d) is not a state the node held: %s - the model's disk invariant (every_crash_prefix_good, lazy_snapshot_is_start_state) does not hold on the real disk",
-				w.Name, ht.Name, ht.Idx, ht.N, nm, sf.hash[:16], sf.height, what),
-				map[string]interface{}{"case": Case{Workload: w.Name, Hit: ht.N, Mode: "client", Point: freePoint(w, ht, ""), PIdx: ht.Idx}, "ops": w.Ops})
+			msg := fmt.Sprintf("workload %s, directory captured at %s#%d (point %d): %s (header: block %s height %d) is not a state the node held: %s - the model's disk invariant (every_crash_prefix_good, lazy_snapshot_is_start_state) does not hold on the real disk",
+				w.Name, ht.Name, ht.Idx, ht.N, nm, sf.hash[:16], sf.height, what)
+			cs := Case{Workload: w.Name, Hit: ht.N, Mode: "client", Point: freePoint(w, ht, ""), PIdx: ht.Idx}
+			p.deferred = append(p.deferred, func() {
+				r.TieFail("snapshot-file:"+w.Shape, msg, map[string]interface{}{"case": cs, "ops": w.Ops})
+			})
 		}
 	}
 }
 
 // ------------------------------------------------------------------------------------------ clean shutdown inside the history
 
-// closedRestarts: every directory the node left behind after a clean shutdown INSIDE the history (ops restart) is re-opened by
-// fresh processes in client and in library mode: the state must be exactly the one before the shutdown, the recovery loop a
-// no-op, and (library mode) further clean Close + NewChainExt cycles keep it.
-func (h *Harness) closedRestarts(w Workload, wr *WlRun, blocksFile string) {
-	r := h.r
-	for i, cd := range wr.Closed {
+type closedJob struct {
+	i    int
+	cd   closedDir
+	mode string
+	lx   string
+	res  *ChildRes
+}
+
+// closedStart (phase A) / closedRestarts (phase B): every directory the node left behind after a clean shutdown INSIDE the history
+// (ops restart) is re-opened by fresh processes in client and in library mode: the state must be exactly the one before the
+// shutdown, the recovery loop a no-op, and (library mode) further clean Close + NewChainExt cycles keep it.
+func (h *Harness) closedStart(p *pending) {
+	for i, cd := range p.wr.Closed {
 		for _, mode := range []string{"client", "library"} {
 			dir := fmt.Sprintf("%s-%s/", strings.TrimRight(cd.Dir, "/"), mode)
 			if copyTree(cd.Dir, dir) != nil {
 				continue
 			}
-			lx := h.libExpect(h.viewOf(dir))
-			c := runChild(mode, dir, blocksFile)
-			h.nChild++
-			r.Eval("clean-restart/"+w.Shape+"/"+mode, fmt.Sprintf("%s|closed%d|%s", w.Name, i, mode))
-			r.Hit("clean-restart-inside-history:library-tail-expected-" + lx)
-			ht := Hit{N: 0, Name: cd.Label, Idx: i + 1, OpIdx: cd.OpIdx, NSub: cd.NSub}
-			rep := map[string]interface{}{"case": Case{Workload: w.Name, Mode: "closed:" + mode}, "closed_directory": i + 1, "ops": w.Ops, "child": c, "before_shutdown": cd.Pre}
-			where := fmt.Sprintf("workload %s: the chain was closed cleanly inside the history (op %d); a fresh process (%s mode) re-opening that directory", w.Name, cd.OpIdx, mode)
-			switch {
-			case c.Open != "ok":
-				r.PropFail("clean-restart-fails:"+w.Shape, where+" fails: "+c.Open, rep)
-			case c.S1 == nil || c.S1.Tip != cd.Pre.Tip || c.S1.Dump != cd.Pre.Dump:
-				r.PropFail("clean-restart-differs:"+w.Shape, fmt.Sprintf("%s gives %s; before the shutdown: %s", where, stateStr(c.S1), stateStr(cd.Pre)), rep)
-			case c.Cycle != "":
-				r.PropFail("clean-restart-fails:"+w.Shape, where+" succeeds, but "+c.Cycle, rep)
-			case mode == "client" && (c.S2 == nil || c.S2.Tip != c.S1.Tip || c.S2.Dump != c.S1.Dump):
-				r.PropFail("clean-restart-recovers:"+w.Shape, fmt.Sprintf("%s: the recovery loop still changes the state: %s -> %s (%s)", where, stateStr(c.S1), stateStr(c.S2), c.Recovery), rep)
-			default:
-				h.curLib = lx
-				if h.judge2(w, wr, ht, mode, c, "") {
-					r.Hit("clean-restart-inside-history:identity-holds/" + mode)
-				}
-				h.curLib = ""
+			j := &closedJob{i: i, cd: cd, mode: mode, lx: h.libExpect(h.viewOf(dir))}
+			p.closed = append(p.closed, j)
+			p.wg.Add(1)
+			go func(j *closedJob, dir string) {
+				defer p.wg.Done()
+				j.res = runChild(p.env, j.mode, dir, p.blocksFile)
+			}(j, dir)
+		}
+	}
+}
+
+func (h *Harness) closedRestarts(p *pending) {
+	r := h.r
+	w, wr := p.w, p.wr
+	for _, j := range p.closed {
+		i, cd, mode, lx, c := j.i, j.cd, j.mode, j.lx, j.res
+		h.nChild++
+		r.Eval("clean-restart/"+w.Shape+"/"+mode, fmt.Sprintf("%s|closed%d|%s", w.Name, i, mode))
+		r.Hit("clean-restart-inside-history:library-tail-expected-" + lx)
+		ht := Hit{N: 0, Name: cd.Label, Idx: i + 1, OpIdx: cd.OpIdx, NSub: cd.NSub}
+		rep := map[string]interface{}{"case": Case{Workload: w.Name, Mode: "closed:" + mode}, "closed_directory": i + 1, "ops": w.Ops, "child": c, "before_shutdown": cd.Pre}
+		where := fmt.Sprintf("workload %s: the chain was closed cleanly inside the history (op %d); a fresh process (%s mode) re-opening that directory", w.Name, cd.OpIdx, mode)
+		switch {
+		case c.Open != "ok":
+			r.PropFail("clean-restart-fails:"+w.Shape, where+" fails: "+c.Open, rep)
+		case c.S1 == nil || c.S1.Tip != cd.Pre.Tip || c.S1.Dump != cd.Pre.Dump:
+			r.PropFail("clean-restart-differs:"+w.Shape, fmt.Sprintf("%s gives %s; before the shutdown: %s", where, stateStr(c.S1), stateStr(cd.Pre)), rep)
+		case c.Cycle != "":
+			r.PropFail("clean-restart-fails:"+w.Shape, where+" succeeds, but "+c.Cycle, rep)
+		case mode == "client" && (c.S2 == nil || c.S2.Tip != c.S1.Tip || c.S2.Dump != c.S1.Dump):
+			r.PropFail("clean-restart-recovers:"+w.Shape, fmt.Sprintf("%s: the recovery loop still changes the state: %s -> %s (%s)", where, stateStr(c.S1), stateStr(c.S2), c.Recovery), rep)
+		default:
+			h.curLib = lx
+			if h.judge2(w, wr, ht, mode, c, "") {
+				r.Hit("clean-restart-inside-history:identity-holds/" + mode)
 			}
+			h.curLib = ""
 		}
 	}
 }
